@@ -104,6 +104,7 @@ def _holds(m, ch):
 
 HELPERS = {
     'holds': _holds,
+    'chars_hold': lambda s, a, b, m: all(_holds(m, s[i]) for i in range(a, b)),
     'same_str': lambda a, b: a == b,
     'fresh': lambda x: True,
     'allocated': lambda x: True,
